@@ -217,7 +217,8 @@ def rule_dynamic_clause_templates(ctx):
         if not ok:
             # the clause goes through a private `add_clause` wrapper of the encoder, or the semantics are tested by a predicate method
             wrapped = [s for s in b.calls() if prog.body_for_callee(callee_of(s), b) is not None and prog.body_for_callee(callee_of(s), b).impl and prog.body_for_callee(callee_of(s), b).impl.get("self_adt") == ENC and any(callee_matches(callee_of(x), r"sat_solver::SatSolver::add_clause$") for x in prog.body_for_callee(callee_of(s), b).calls()) and prog.body_for_callee(callee_of(s), b).ret_ty == "()" and prog.body_for_callee(callee_of(s), b).n_args == 2]
-            if (not adds and wrapped) or (adds and any(not c.is_discr for a_ in adds for c in conditions(b, a_.bb))):
+            sem_matched = any(c.is_discr and ("Semantics" in b.local_ty(c.place["l"]) or c.place["p"]) for a_ in adds for c in conditions(b, a_.bb))
+            if (not adds and wrapped) or (adds and not sem_matched and any(not c.is_discr for a_ in adds for c in conditions(b, a_.bb))):
                 unresolved = True
         if unresolved:
             r.ok(b.id, "NOT decided: the clause added when an argument is created is issued in a form the rule does not follow (a wrapper of add_clause / a predicate on the semantics)", b.loc())
